@@ -413,7 +413,12 @@ int main(int argc, char ** argv) {
 			}
 
 			if (extensions & EXT_TRANSCLUDE) {
-				mmd_transclude_source(buffer, folder, a_file->filename[i], format, NULL, NULL);
+				// Use the absolute path (as without -b), so that a relative
+				// `transclude base` is resolved against the folder of the file
+				char * absolute = realpath(a_file->filename[i], NULL);
+
+				mmd_transclude_source(buffer, folder, absolute ? absolute : a_file->filename[i], format, NULL, NULL);
+				free(absolute);
 
 				// Don't free folder -- owned by dirname
 			}
